@@ -34,7 +34,7 @@ git -C /repo worktree add -q --detach $SCR HEAD || exit 2
 cd $SCR || exit 2
 git apply $OUT/patch.diff 2>/dev/null || git apply -3 $OUT/patch.diff || { echo "patch does not apply to /repo HEAD"; cd /; git -C /repo worktree remove --force $SCR; exit 2; }
 git reset -q   # a 3-way apply stages the result; the checks only need the working tree
-cd /verif
+cd ${VERIF_ROOT:-/verif}
 CAUGHT=""
 for c in $CHECKS; do
   VERIF_REPO=$SCR ./verifctl check $c > /tmp/seeded_check_${ID}_$c.log 2>&1; rc=$?
